@@ -21,11 +21,14 @@ TInit == Init /\ l = 1 /\ pend = [th \in Threads |-> None]
 Cur == Trace[l]
 Is(e) == l <= Len(Trace) /\ Cur.ev = e
 
+(* Stop holds the dispatcher lock from its first close to its end: no snapshot, no del, no subscribe meanwhile *)
+Stopping == \E th \in Threads : pend[th] # None /\ pend[th].op = "stop" /\ pend[th].phase = "closing"
+
 TBegin == /\ Is("begin") /\ pend[Cur.th] = None
           /\ pend' = [pend EXCEPT ![Cur.th] = [op |-> Cur.op, t |-> Cur.t, id |-> Cur.id, s |-> Cur.s, phase |-> "called"]]
           /\ l' = l + 1 /\ UNCHANGED vars
 
-TPostBegin(c) == /\ pend[c].op = "post" /\ pend[c].phase = "called"
+TPostBegin(c) == /\ pend[c].op = "post" /\ pend[c].phase = "called" /\ ~Stopping
                  /\ PostBegin(c, pend[c].t, pend[c].id)
                  /\ pend' = [pend EXCEPT ![c].phase = IF stopped THEN "failed" ELSE "begun"]
                  /\ UNCHANGED l
@@ -38,13 +41,16 @@ TEndPost == /\ Is("end") /\ Cur.op = "post"
                /\ pend' = [pend EXCEPT ![c] = None]
             /\ l' = l + 1
 
-TUnsubDel(th) == /\ pend[th].op = "unsub" /\ pend[th].phase = "called"
+TUnsubDel(th) == /\ pend[th].op = "unsub" /\ pend[th].phase = "called" /\ ~Stopping
                  /\ UnsubDel(pend[th].s)
                  /\ pend' = [pend EXCEPT ![th].phase = "deleted"] /\ UNCHANGED l
 TUnsubClose(th) == /\ pend[th].op = "unsub" /\ pend[th].phase = "deleted"
                    /\ UnsubClose(pend[th].s)
                    /\ pend' = [pend EXCEPT ![th].phase = "closed"] /\ UNCHANGED l
-TStop(th) == /\ pend[th].op = "stop" /\ pend[th].phase = "called"
+TStopClose(th) == /\ pend[th].op = "stop" /\ pend[th].phase \in {"called", "closing"}
+                  /\ \E s \in Subs : StopCloseOne(s)
+                  /\ pend' = [pend EXCEPT ![th].phase = "closing"] /\ UNCHANGED l
+TStop(th) == /\ pend[th].op = "stop" /\ pend[th].phase \in {"called", "closing"}
              /\ Stop
              /\ pend' = [pend EXCEPT ![th].phase = "closed"] /\ UNCHANGED l
 TEndOther == /\ Is("end") /\ Cur.op \in {"unsub", "stop"}
@@ -74,7 +80,7 @@ TReset == /\ Is("reset") /\ \A th \in Threads : pend[th] = None
 
 TNext == \/ TBegin \/ TEndPost \/ TEndOther \/ TRecv \/ TSubscribe \/ TReset
          \/ \E c \in Callers : TPostBegin(c) \/ TPostDeliver(c)
-         \/ \E th \in Threads : TUnsubDel(th) \/ TUnsubClose(th) \/ TStop(th)
+         \/ \E th \in Threads : TUnsubDel(th) \/ TUnsubClose(th) \/ TStop(th) \/ TStopClose(th)
 
 TSpec == TInit /\ [][TNext]_tvars
 
